@@ -5,7 +5,8 @@
 (*       values are round(T * S).  Clauses: one value per layer, finite positive, *)
 (*       within the control range, constant when the controls are equal; for      *)
 (*       npoint TLC decides from the logged nodes (log10 P in 1/100 decade, T in  *)
-(*       K, both exact) whether the profile had to be rejected.                   *)
+(*       K, both exact; sign of every node pressure in e.sg: an intermediate node *)
+(*       may be zero or negative) whether the profile had to be rejected.         *)
 (*  ev = "npoint": logspace grid with nodes on whole decades; TLC re-evaluates    *)
 (*       NPointProfile (log-pressure unit = 1/(n-1) decade) layer by layer.       *)
 (*  ev = "guillot": outcome classification (listed non-physical sets must be      *)
@@ -25,8 +26,8 @@ ProfileClauses(e) ==
 
 OkRange(e) ==
     IF e.kind = "npoint"
-    THEN LET inv    == NPointInvalid(e.tn, e.pn, e.lim)
-             strict == NPointStrictlyInvalid(e.tn, e.pn, e.lim)
+    THEN LET inv    == NPointInvalidS(e.tn, e.pn, e.sg, e.lim)          \* node pressure i = e.sg[i] * 10^(e.pn[i]/100)
+             strict == NPointStrictlyInvalidS(e.tn, e.pn, e.sg, e.lim)
          IN  IF strict THEN e.outcome = "invalid"
              ELSE IF inv THEN e.outcome = "invalid" \/ (e.outcome = "ok" /\ ProfileClauses(e))   \* boundary tie
              ELSE e.outcome = "ok" /\ ProfileClauses(e)
